@@ -95,4 +95,9 @@ PROPS = {
         'eval_keys': ['invocations', 'usage_invocations'],
         'rule': 'subprocess invocations: programs x {file, -c, -e} x subsets of the five output flags; every subset of the four source options with empty and non-empty values (usage errors); distinct = distinct (source kind, program, flags)',
     },
+    'C03': {
+        'theorems': [],
+        'eval_keys': ['graphs'],
+        'rule': 'hand-built CodeData without private fields: random block graphs (1-12 blocks, thorough up to 40; block sizes around 126-129 and 254-257 instructions so that offsets straddle the 1/2-byte operand boundary), absolute jumps both directions and forward relative jumps, operand tables of 0..400 entries (EXTENDED_ARG operands), constants that are equal but CPython-distinct, lines same/increasing/wild (+-127/128/255/256/1000, None on 3.10), all signature shapes; plus inconsistent-override data (must raise) and user-edited decoded data; distinct = distinct serialised CodeData',
+    },
 }
